@@ -333,7 +333,7 @@ func init() {
 			"documented account-file names of the privileges: lean/MobiusModel/Spec/Governing.lean accessYamlNames (hand-written)",
 		}
 		x.Add(&Family{Name: "single-bit", Quick: 64, Thor: 64, Run: func(c *Case) {
-			i := c.Idx % 64
+			i := tableIndex(c, 64) % 64
 			b := bmOf(i)
 			c.Note("privilege", i)
 			// Set(i) sets exactly the MSB-first bit i
@@ -377,7 +377,8 @@ func init() {
 		}})
 		x.Add(&Family{Name: "bit-pairs", Quick: 780, Thor: 780, Run: func(c *Case) {
 			// idx -> pair (p < q) of defined privileges
-			k := c.Idx % 780
+			idx := tableIndex(c, 780)
+			k := idx % 780
 			p, q := 0, 0
 		outer:
 			for p = 0; p < 40; p++ {
@@ -390,7 +391,7 @@ func init() {
 			}
 			b := bmOf(definedPrivs[p], definedPrivs[q])
 			checkYamlLevel(c, b)
-			if c.Idx%4 == 0 || c.X.Tier == "thorough" {
+			if idx%4 == 0 || c.X.Tier == "thorough" {
 				checkAccountLevel(c, b)
 			}
 			c.Dist("pair")
@@ -485,8 +486,8 @@ func init() {
 		}})
 		x.Add(&Family{Name: "wire-field", Quick: 90, Thor: 400, Run: func(c *Case) {
 			var b hotline.AccessBitmap
-			if c.Idx < 64 {
-				b = bmOf(c.Idx)
+			if idx := tableIndex(c, 400); idx < 64 {
+				b = bmOf(idx)
 			} else {
 				b = randBitmap(c.R)
 			}
